@@ -72,6 +72,25 @@ Definition state_at (m : model) (p : params) (t : nat) (idx : list nat) : ienv :
     end
   else combine free idx.
 
+(* inverse direction: where the value of a state (one grid index per state) is stored *)
+Fixpoint find_index {A} (eqb : A -> A -> bool) (x : A) (l : list A) : option nat :=
+  match l with
+  | [] => None
+  | y :: r => if eqb x y then Some O else match find_index eqb x r with Some i => Some (S i) | None => None end
+  end.
+Definition ienv_eqb (names : list string) (a b : ienv) : bool :=
+  forallb (fun n => Nat.eqb (ilook a n) (ilook b n)) names.
+
+Definition locate (m : model) (p : params) (t : nat) (ie : ienv) : option (list nat) :=
+  let free := (map fst (free_discrete_states m) ++ map fst (free_continuous_states m))%list in
+  let rest := map (ilook ie) free in
+  if has_restricted_states m then
+    match find_index (ienv_eqb (map fst (restricted_states m))) ie (remaining_states m p t) with
+    | Some r => Some (r :: rest)
+    | None => None
+    end
+  else Some rest.
+
 (* the value array of period t in the documented layout, from the table indexed in declaration order *)
 Definition to_layout (m : model) (p : params) (t : nat) (tab : arr val) : arr val :=
   tabulate (expected_shape m p t) (fun idx =>
